@@ -25,6 +25,21 @@ def gen(rng, cid):
     return '\n'.join(lines)
 
 
+def gen_sliding(rng, cid):
+    k = rng.weighted([(2, 4), (3, 4), (4, 2)])
+    maxdiff = rng.weighted([(1, 4), (2, 3), (4, 1)])
+    lower = rng.below(3)
+    lines = [f'case {cid} model=ssem kind=sliding maxdiff={maxdiff} lower={lower} seed={rng.below(1 << 30)} strat={rng.weighted([(0, 5), (1, 3), (2, 2)])}']
+    for t in range(k):
+        ops = []
+        for _ in range(1 + rng.below(4)):
+            o = rng.weighted([('swait', 5), ('ssignal', 6), ('strywait', 2)])
+            ops.append(f'{o} {rng.below(9)}')
+        lines.append(f'thread {t}: ' + ' ; '.join(ops) + ' ;')
+    lines.append('endcase')
+    return '\n'.join(lines)
+
+
 def nontrivial(c, r):
     # a case is non-trivial when some thread really blocked or slept (cv.enq in the log)
     return ' cv.enq ' in r['raw']
@@ -38,8 +53,10 @@ def stats(c, r):
 
 
 e1check.run(dict(
-    prop='C08', model='sem', harness='e1/sem.cpp', bin='e1_sem', gen=gen, nontrivial=nontrivial, stats=stats,
-    quick=1500, thorough=40000, extra=6000,
-    rule='random programs (2-5 threads, 1-4 ops each over acquire/release(n)/try_acquire/try_acquire_for) on one counting or binary semaphore, random initial count, PRNG schedules (uniform / priority / sticky); non-trivial = at least one thread enqueued on the condition variable; distinct = distinct (program, schedule seed) text',
-    assumptions=['sliding_semaphore is exercised by the harness but not yet modelled in Lean (see DESIGN.md C08)'],
+    prop='C08', model='sem', harness='e1/sem.cpp', bin='e1_sem', nontrivial=nontrivial, stats=stats,
+    batches=[dict(model='sem', gen=gen, quick=1500, thorough=40000, extra=6000),
+             dict(model='ssem', gen=gen_sliding, quick=1000, thorough=25000, extra=4000)],
+    rule='random programs (2-5 threads, 1-4 ops each over acquire/release(n)/try_acquire/try_acquire_for) on one counting or binary semaphore (random initial count) and, second batch, wait/try_wait/signal programs on one sliding_semaphore (random max_difference / lower_limit), PRNG schedules (uniform / priority / sticky); non-trivial = at least one thread enqueued on the condition variable; distinct = distinct (program, schedule seed) text',
+    assumptions=['sliding_semaphore::set_max_difference is not modelled (it changes the distance without notifying anybody)',
+                 'the wake-up token of the verification agent stands for the suspend/resume of the real task agent (C02)'],
 ))
